@@ -154,7 +154,7 @@ def run_case(case, ctx):
         tol = max(tol, compare.tol_fft(dt))
     if not kappa <= 1e8:
         # numerically singular PSD input: Cholesky-based results legitimately carry the documented diagonal jitter
-        tol = max(tol, 1e-5 if compare.is64(dt) else 1e-3)
+        tol = max(tol, 1e-4 if compare.is64(dt) else 1e-3)  # up to 1e-4 relative: jitter levels 1e-8 .. 1e-6 over Kronecker products of small-norm factors
 
     def rel(X, Y, sc=scale):
         if tuple(X.shape) != tuple(Y.shape):
